@@ -107,3 +107,22 @@ Lemma ci_effective_normalize_cases_lemma :
   ci_effective_normalize true None = true /\ ci_effective_normalize false None = false /\
   forall q v, ci_effective_normalize q (Some v) = v.
 Proof. repeat split. Qed.
+
+(* the whole writer pass: every entry of the result for a stream object outside page content is un-normalised *)
+Lemma ci_write_all_only_page_content_lemma : forall cfg st pages streams n r,
+  In (n, r) (ci_write_all cfg st pages streams) -> n <> 0 -> ~ ci_is_page_content st pages n ->
+  snd (fst r) = false /\ snd r = [].
+Proof.
+  intros cfg st pages streams n r Hin Hn0 Hnot. unfold ci_write_all in Hin. apply in_map_iff in Hin.
+  destruct Hin as ((k & a) & Heq & _). cbn [fst snd] in Heq. injection Heq as <- <-.
+  pose proof (ci_only_page_content_normalised_lemma cfg st pages k a Hn0 Hnot) as H.
+  destruct (ci_write_stream cfg (ci_special_streams st pages) k a) as [[data nrm] ws]. cbn [fst snd]. tauto.
+Qed.
+
+(* with content normalisation off nothing is normalised at all *)
+Lemma ci_normalize_off_lemma : forall cfg special n a,
+  ci_normalize cfg = false -> snd (fst (ci_write_stream cfg special n a)) = false.
+Proof.
+  intros cfg special n a Hoff. destruct (snd (fst (ci_write_stream cfg special n a))) eqn:E; [|reflexivity].
+  destruct (ci_normaliser_needs_registration _ _ _ _ E) as [X _]. congruence.
+Qed.
